@@ -23,6 +23,9 @@ import extract as X  # noqa: E402
 from unit import Unit, VERIF  # noqa: E402
 
 BUILD = os.path.join(VERIF, "build")
+# where the generated Verus files of THIS run go: a property check writes into its own sub-directory build/<prop>_<tier>/ so
+# that checks of different properties (which share units) can run at the same time without overwriting each other's files
+RUN_DIR = BUILD
 EVID = os.path.join(VERIF, "evidence")
 VERUS = os.environ.get("VERUS", "verus")
 DEFINITE = (
@@ -196,7 +199,7 @@ def function_times(res):
 
 def run_unit(name, seed, tier):
     """generate + verify one unit; returns a result dict."""
-    os.makedirs(BUILD, exist_ok=True)
+    os.makedirs(RUN_DIR, exist_ok=True)
     r = dict(unit=name, undecided=[], refuted=[], labels={}, functions=[], rewrites=[], assumptions=[],
              verified=0, errors=0, wall=0.0, smoke=None, cmd="", times={})
     try:
@@ -205,7 +208,7 @@ def run_unit(name, seed, tier):
     except X.Undecided as e:
         r["undecided"].append(str(e))
         return r
-    path = os.path.join(BUILD, name + os.environ.get("VX_BUILD_SUFFIX", "") + ".rs")
+    path = os.path.join(RUN_DIR, name + os.environ.get("VX_BUILD_SUFFIX", "") + ".rs")
     open(path, "w").write(g.text())
     rlimit = u.cfg.get("unit", {}).get("rlimit", 20)
     res = run_verus(path, seed, rlimit)
@@ -242,7 +245,7 @@ def run_unit(name, seed, tier):
         try:
             us = Unit(name)
             gs = us.generate(smoke=True)
-            spath = os.path.join(BUILD, name + os.environ.get("VX_BUILD_SUFFIX", "") + "_smoke.rs")
+            spath = os.path.join(RUN_DIR, name + os.environ.get("VX_BUILD_SUFFIX", "") + "_smoke.rs")
             open(spath, "w").write(gs.text())
             sres = run_verus(spath, seed, rlimit)
             r["wall"] += sres["wall"]
@@ -601,6 +604,8 @@ def main():
         print(f"unit {a.unit}: verus verified={r['verified']} errors={r['errors']} labels={len(r['labels'])} "
               f"functions={len(r['functions'])} smoke={r['smoke']} wall={r['wall']:.1f}s")
         return 1 if r["refuted"] else (2 if r["undecided"] else 0)
+    global RUN_DIR
+    RUN_DIR = os.path.join(BUILD, f"{a.prop}_{a.tier}")
     return check_property(a.prop, a.tier, seed)
 
 
